@@ -94,7 +94,7 @@ def verify_function(ex, con, prop=None):
                 selfv = a.get("self")
                 clsv = a.get("cls")
                 rest = {k: v for k, v in a.items() if k not in ("self", "cls")}
-                kind = selfv.kind if selfv is not None else clsv.name
+                kind = selfv.kind if selfv is not None else getattr(clsv, "symbase", clsv.name)
                 outs = []
                 for (s_, tag_, f_) in ex.class_attr(kind, node.name, st0, fr, self_val=selfv, cls_val=clsv):
                     if tag_ != "ok":
@@ -116,7 +116,8 @@ def verify_function(ex, con, prop=None):
             continue
         base = "%s::%s[%s]" % (con.file, con.qual, variant)
         # cover: requires satisfiable
-        obligs.append(Obligation(base + "::cover:requires", st0.pc, tm.FALSE, kind="V", prop=prop, expect="sat",
+        hint = con.cover_hint(ex, st0, a) if hasattr(con, "cover_hint") else []
+        obligs.append(Obligation(base + "::cover:requires", list(st0.pc) + list(hint), tm.FALSE, kind="V", prop=prop, expect="sat",
                                  decls=ex.models.decls, sorts=ex.models.sorts,
                                  defs=ex.models.defs_for(tm.FALSE, st0.pc),
                                  text="precondition is satisfiable (vacuity guard)"))
